@@ -125,7 +125,7 @@ def batch_c09(tier, sd):
     # the requested type supplied only by a field of an expanded struct (valid; cycles / duplicates / orphans planted below)
     fr = []
     for d in base:
-        fr += ds.field_ret_variants(d)
+        fr += ds.field_ret_variants(d) + ds.multi_ret_variants(d)
     base += rng.sample(fr, min(len(fr), 6 if quick else 60))
     out = []
     for d in base:
